@@ -50,6 +50,60 @@ SEEDS = {
  "C08-2": ("C08", "store.go writeRoots(): skips the root record when the roots JSON equals the last one written; FlushRevert never clears that cache",
            "an idle second Flush followed by FlushRevert, or a same-shape same-size redo after a revert",
            {"C08": "flush-no-root"}),
+ "C04-1": ("C04", "collection.go rootCAS(): a previous version that is still pinned (chained) no longer gets its 'superseded' flag",
+           "snapshot; Set of a new key that reuses the old root node unmarked (priority >= root's, beyond the root on a childless side); close the snapshot as last holder; touch the original",
+           {"C04": "durable / contents (original loses items after snapshot Close)"}),
+ "C04-2": ("C04", "store.go Snapshot(): a snapshot of a snapshot takes no root pin of its own",
+           "s.Snapshot().Snapshot(), close the parent snapshot, mutate the original twice (or close both)",
+           {"C04": "panic (nil dereference while reading through the child snapshot)"}),
+ "C09-1": ("C09", "store.go readRoots(): opening a store truncates bytes found after the newest valid root record",
+           "a file with bytes after its newest root record (interrupted Flush or Collection.Write without Flush) that is re-opened",
+           {"C09": "truncate-outside-revert (after Collection.Write was added to the C09 profile)"}),
+ "C09-2": ("C09", "collection.go Write(): the read-only guard is removed, so a snapshot's collection can write at its stale append position",
+           "snapshot taken with an unflushed mutation, the writer mutates the same collection again and flushes, then Write() on the snapshot's collection",
+           {"C09": "write-on-read-path (after rejected snapshot ops were added to the C09 profile; missed before)", "C04": "snapshot-accepted-write"}),
+ "C10-1": ("C10", "collection.go rootCAS(): no version chain when the successor tree is empty",
+           "a version pinned by a snapshot / in-flight visit, the collection emptied by Delete meanwhile, one more Set, then a read through the old handle after allocation elsewhere",
+           {"C10": "live-node-freed"}),
+ "C10-2": ("C10", "collection.go VisitItemsDescendEx(): the version pin is released before the walk instead of after it",
+           "a descending visit or IterateDescend in flight plus a Set/Delete on the same collection during it",
+           {"C10": "panic (nil dereference in visitNodes)"}),
+ "C11-1": ("C11", "store.go CopyTo(): skips the closing Flush when the last copied item already triggered a periodic flush",
+           "flushEvery > 0, an empty collection sorting after every non-empty one, last non-empty collection's size a multiple of flushEvery; checker must re-open the destination file",
+           {"C11": "copyto-durable"}),
+ "C11-2": ("C11", "store.go ItemValRead(): leaves Val nil for zero-length values",
+           "an item with an empty non-nil value that is not cached with its value at CopyTo time (re-opened file, snapshot of one, evicted)",
+           {"C11": "copyto-contents"}),
+ "C12-1": ("C12", "store.go Flush(): skips the root record when every collection root is already persisted",
+           "RemoveCollection of a persisted collection with only clean non-empty survivors (or none), Flush, re-open",
+           {"C12": "flush-no-root"}),
+ "C12-2": ("C12", "store.go SetCollection(existing, nil): keeps the old comparator instead of installing bytes.Compare",
+           "collection with a custom comparator, SetCollection(sameName, nil), then an operation on which the comparators disagree",
+           {"C12": "contents (scan order) — after nil comparators were added to the generator; missed before"}),
+ "C13-1": ("C13", "treap.go union(): stale byte total on a lower-priority overwrite (same defect class as C01-1)",
+           "overwrite with strictly lower priority and a value of different length",
+           {"C13": "contents (GetTotals) / agg-bytes"}),
+ "C13-2": ("C13", "treap.go join(): shortcut that ignores priorities when the left part has no right subtree",
+           "Delete where both join parts are non-empty, the left root has no right child and the right root outranks it; lookups stay correct, only heap order / depths are wrong",
+           {"C13": "heap-order"}),
+ "C14-1": ("C14", "store.go Flush(): returns nil without writing a root record when all roots look clean",
+           "RemoveCollection or Delete of a root item with one persisted child after an earlier flush",
+           {"C14": "flush-no-root"}),
+ "C14-2": ("C14", "store.go CopyTo(): skips its final flush when no item is pending",
+           "flushEvery > 0 and a trailing empty collection (or only empty collections)",
+           {"C14": "copyto-no-final-root / copyto-durable (after CopyTo was added to the C14 profile; missed before)", "C11": "copyto-durable"}),
+ "C15-1": ("C15", "treap.go visitNodes(): releases the captured key-only item instead of the item actually evicted after a with-value visit",
+           "file-backed, flushed, item uncached or key-only, then a withValue visit over it",
+           {"C15": "refcount-negative"}),
+ "C15-2": ("C15", "collection.go rootDecRefUnlocked(): skips the chained release when the main collection is already closed",
+           "Snapshot, a mutation while pinned, store.Close() before snapshot.Close()",
+           {"C15": "refcount-leak"}),
+ "C16-1": ("C16", "collection.go VisitItemsAscendBlockEx(): the per-block counter is shared across blocks",
+           "size not a multiple of the block length and a block order that does not leave the short block last (reverse / shuffle mangler)",
+           {"C16": "block-coverage (n=3, reverse mangler)"}),
+ "C16-2": ("C16", "collection.go Len(): result cached on a pooled rootNodeLoc and never reset on reuse",
+           "Len(); two mutations; Len() again (recycled version handle)",
+           {"C16": "len"}),
 }
 
 def main():
